@@ -347,6 +347,24 @@ def r04_7(ctx):
     ctx.floor("R04.7", "transfers", len(inv), 55)
     if step_cells is None:
         raise AnchorMissing("TreeBuilder::step has no path normal form")
+    _ht = {}
+
+    def helper_transfers(h):
+        """modes a helper of the tree builder hands its token argument on to (Reprocess(mode, p1)) on a path that pops nothing"""
+        if h not in _ht:
+            out = []
+            try:
+                _, hp = nfq.cells(ctx, "html_tree_builder", "TreeBuilder<Handle,Sink>::" + h)
+                for pc in nfq.feasible(hp):
+                    m2 = re.match(r"Reprocess\((.*?),p1\)$", str(pc["ret"]))
+                    if m2 and not any(str(a[0]).startswith(POPS) for a in pc["actions"]):
+                        out.append(m2.group(1))
+            except Exception:  # noqa
+                pass
+            _ht[h] = out
+        return _ht[h]
+
+    POPS = ("self.pop", "self.pop_until", "self.pop_until_named", "self.pop_until_current", "self.expect_to_close", "self.remove_from_stack", "self.close_the_cell", "self.generate_implied_end")
     # per-token graph
     modes = set()
     for c in step_cells:
@@ -382,6 +400,10 @@ def r04_7(ctx):
             for a in c["actions"]:
                 if a[0] == "self.step" and len(a[1]) == 2 and str(a[1][1]) == "p2":
                     targets.append(str(a[1][0]))
+            # the row's answer may be a helper's: `self.process_chars_in_table(token)` answers Reprocess(InTableText, token)
+            hm = re.match(r"self\.(\w+)\(p2\)$", str(c["ret"]))
+            if hm:
+                targets += helper_transfers(hm.group(1))
             for t in targets:
                 if shrinking:
                     continue
@@ -461,6 +483,9 @@ def r04_8(ctx):
 def run(ctx):
     ctx.rule("R04.8", "xml5ever: phase Main implies a non-empty stack of open elements (entered with a push; every net pop re-tests no_open_elems and leaves Main)")
     ctx.guard("R04.8", "xml-main", lambda: r04_8(ctx))
+    ctx.rule("R04.10", "= R02.10 'reset the insertion mode appropriately': with a head (td, th) context element - the last node - the mode is 'in body', not 'in head' ('in cell'), whose 'anything else' rule pops the root element and leaves nothing to insert into")
+    from .C02 import r02_10
+    ctx.guard("R04.10", "reset-mode", lambda: ctx.under("R04.10", lambda: r02_10(ctx)))
     ctx.rule("R04.7", "tree-builder transfers that do not consume the token: reviewed inventory; per token class, no cycle of transfers that leave the stack alone")
     ctx.guard("R04.7", "transfers", lambda: r04_7(ctx))
     ctx.rule("R04.1", "per function and kind, the explicit panic sites (panic/unwrap/expect/assert/bounds) are within the reviewed inventory")
